@@ -930,6 +930,20 @@ class Program:
                                 else:
                                     setattr(par, fld, new)
                                 changed = True
+                    # N14: getattr(x, 'name')  ->  x.name
+                    for par in list(ast.walk(fnode)):
+                        for fld, val in list(ast.iter_fields(par)):
+                            items = val if isinstance(val, list) else [val]
+                            for k, c in enumerate(items):
+                                if isinstance(c, ast.Call) and isinstance(c.func, ast.Name) and c.func.id == 'getattr' and len(c.args) == 2 \
+                                        and not c.keywords and isinstance(c.args[1], ast.Constant) and isinstance(c.args[1].value, str) \
+                                        and c.args[1].value.isidentifier():
+                                    new = ast.copy_location(ast.Attribute(value=c.args[0], attr=c.args[1].value, ctx=ast.Load()), c)
+                                    if isinstance(val, list):
+                                        val[k] = new
+                                    else:
+                                        setattr(par, fld, new)
+                                    changed = True
                     # N12: f(**{'a': x, 'b': y})  ->  f(a=x, b=y)
                     for c in [n for n in ast.walk(fnode) if isinstance(n, ast.Call)]:
                         for kw in list(c.keywords):
@@ -958,7 +972,7 @@ class Program:
                                 if first_hit is None and \
                                         any(isinstance(x, (ast.Break, ast.Continue)) for b_ in st.body for x in ast.walk(b_)):
                                     continue
-                                elems = literal_elems(fnode, st.iter)
+                                elems = literal_elems(fnode, st.iter, mod)
                                 bs = bindings(st.target, elems) if elems is not None else None
                                 if bs is None:
                                     continue
